@@ -49,7 +49,9 @@ def run(tier, seed):
   def inproc(mode, name, sd, space_seed, steps, k, before=None):
     c14run.perturb(k)
     try:
-      if before:
+      if before == 'gp_construct':
+        c14run.construct_gp_designers()
+      elif before:
         c14run.run_mode('designer', before, 1, 99, [2, 2])
       return c14run.run_mode(mode, name, sd, space_seed, steps)
     finally:
@@ -87,7 +89,7 @@ def run(tier, seed):
         except Exception as e:  # pylint: disable=broad-except
           rep.count('refused_%s_%s_%s' % (mode, name, type(e).__name__))
           continue
-        b = canon(inproc(mode, name, sd, space_seed, steps, 2, before=r.choice([None, 'random', 'eagle'])))
+        b = canon(inproc(mode, name, sd, space_seed, steps, 2, before=r.choice([None, 'random', 'eagle']) if name != 'cmaes' else 'gp_construct'))
         runs = [('same process, generators and clock perturbed, another study first', b)]
         if rd == 0 or not quick:
           pending.append((name, mode, spec, a, pool.submit(child, mode, name, sd, space_seed, steps, 3, r.choice([None, 'quasi_random']))))
@@ -131,6 +133,54 @@ def run(tier, seed):
   for name in DESIGNERS:
     if not observed[name]['seed_used']:
       viol('%s: a different seed does not change the suggestions (the seed argument is not used)' % name, {'designer': name})
+
+  # ---- a history of externally evaluated trials (no algorithm metadata), given as THE SAME OBJECTS to two designers built with
+  # the same seed: the second run must see the history the first one saw, so update() must leave the trials it is given as they are
+  import copy as _copy
+  from vizier import pyvizier as _vz
+  from vizier import algorithms as _vza
+  from vizier._src.algorithms.designers import random as _rnd
+  for name in DESIGNERS:
+    for hi in range(2 if quick else 8):
+      space_seed = r.randrange(10000)
+      nh = r.choice([6, 20, 40])
+      try:
+        prob, _meta = c14run.problem(space_seed, name)
+        pts = _rnd.RandomDesigner(prob.search_space, seed=space_seed).suggest(nh)
+        hist = []
+        for i, sg in enumerate(pts):
+          t = sg.to_trial(i + 1)
+          t.metadata.clear() if hasattr(t.metadata, 'clear') else None
+          t = _vz.Trial(id=i + 1, parameters=t.parameters)
+          t.complete(_vz.Measurement({m.name: c14run.objective(t.parameters) + 0.37 * k_ for k_, m in enumerate(prob.metric_information)}))
+          hist.append(t)
+        def _canon_hist(h):
+          return [(t_.id, sorted((k_, repr(v_.value)) for k_, v_ in t_.parameters.items()), repr(t_.final_measurement), t_.status.name,
+                   sorted((ns_.encode(), sorted(dict(t_.metadata.abs_ns(ns_)).items())) for ns_ in t_.metadata.namespaces())) for t_ in h]
+        snapshot = _canon_hist(hist)
+        batches = r.choice([1, 2])
+        outs = []
+        for run_ in range(2):
+          d = c14run.factory(name)(prob, seed=5)
+          n_ = len(hist) // batches
+          o_ = []
+          for b_ in range(batches):
+            d.update(_vza.CompletedTrials(hist[b_ * n_:(b_ + 1) * n_]), _vza.ActiveTrials())
+            o_.append([{k: v.value for k, v in s_.parameters.items()} for s_ in d.suggest(2)])
+          outs.append(canon(o_))
+          if run_ == 0 and snapshot != _canon_hist(hist):
+            now_ = _canon_hist(hist)
+            ch = [i for i in range(len(hist)) if snapshot[i] != now_[i]]
+            viol('%s: update() modified the trials it was given (a caller that passes the same history to another run does not pass the same history)' % name,
+                 {'designer': name, 'space_seed': space_seed, 'history_length': nh, 'modified_trials': ch[:5],
+                  'metadata_after': [{ns_.encode(): dict(hist[i].metadata.abs_ns(ns_)) for ns_ in hist[i].metadata.namespaces()} for i in ch[:2]]})
+        rep.case({'external_history': name, 'space_seed': space_seed, 'n': nh, 'batches': batches}, True)
+        rep.count('external_history_%s' % name)
+        if outs[0] != outs[1]:
+          viol('%s: two designers with the same seed given the same list of completed trials suggest differently' % name,
+               {'designer': name, 'space_seed': space_seed, 'history_length': nh, 'batches': batches, 'run1': outs[0][:1], 'run2': outs[1][:1]})
+      except Exception as e:  # pylint: disable=broad-except
+        rep.count('external_history_refused_%s_%s' % (name, type(e).__name__))
 
   # ---- the GP designers fit their hyper-parameters with sequential restarts under a wall-clock budget.  Same seed, same loss,
   # same starting points: the fitted optimum must not depend on whether one restart takes a millisecond or two minutes (the
